@@ -98,10 +98,11 @@ def check(pid, tier, seed):
         return "C16:%s:%s" % (ev["e"], "+".join(k for k in ("owner", "group", "nosym") if fl.get(k)) + ("+perms" if fl.get("perms") == "strict" else "") or "afterreset")
     bad = validate_scenarios(events, verdict, "C16", fp)
     n += settings_across_threads(exe, verdict)
+    n += big_ids(exe, verdict)
     rc = verdict.finish()
     cov = {"states": mc.distinct, "transitions": mc.generated, "traces_validated_against_impl": n - bad,
            "evaluations": n * 2, "distinct_nontrivial": nn,
-           "rule": "MC_Security: 2-layer trees x every {matching,foreign} owner/group x {regular,symlink} x {ok,bad} permission bits assignment to the consulted files x all 54 settings states reached by the setter actions (owner / group: none, usual id, another id; links; permission masks none / lenient / strict; reset), action property Independent. Traces: %d scenarios over 3-layer (econf_readConfigWithCallback) and 3-layer trees with two drop-in directories per layer (CONFIG_DIRS list, econf_set_conf_dirs) and 2-layer trees (econf_readFile, econf_readFileWithCallback on single files; econf_readDirs, econf_readDirsWithCallback, econf_readDirsHistory(+WithCallback), econf_readConfig(+WithCallback) with PARSING_DIRS; the directory arguments also as RELATIVE names) x the 7 non-empty flag combinations (together with no / a satisfied / a strict econf_requirePermissions requirement - file mode 0640 against the file mask 004, directory mode 0750 against the directory mask 001) x attribute vectors {exactly one file violating one active rule, random vectors, vectors violating only inactive rules}; files are lchown'ed to uid/gid %d resp. replaced by symbolic links; each scenario = setter calls in varying order with overwritten calls mixed in, read, econf_reset_security_settings, read again. Trace_Layers folds the RECORDED setter calls into the settings in force (Security!ApplySetters: every setter changes its own setting only, the last call counts), computes the violations from the logged attributes and accepts only the code of the first failing file, no object, no callback for the refused file, full content after reset. Plus one scenario across threads: rules set by the main thread gate a worker's reads and vice versa. non-trivial = >= 2 consulted files of which exactly one violates an active rule." % (n, p_layers.FOREIGN),
+           "rule": "MC_Security: 2-layer trees x every {matching,foreign} owner/group x {regular,symlink} x {ok,bad} permission bits assignment to the consulted files x all 54 settings states reached by the setter actions (owner / group: none, usual id, another id; links; permission masks none / lenient / strict; reset), action property Independent. Traces: %d scenarios over 3-layer (econf_readConfigWithCallback) and 3-layer trees with two drop-in directories per layer (CONFIG_DIRS list, econf_set_conf_dirs) and 2-layer trees (econf_readFile, econf_readFileWithCallback on single files; econf_readDirs, econf_readDirsWithCallback, econf_readDirsHistory(+WithCallback), econf_readConfig(+WithCallback) with PARSING_DIRS; the directory arguments also as RELATIVE names) x the 7 non-empty flag combinations (together with no / a satisfied / a strict econf_requirePermissions requirement - file mode 0640 against the file mask 004, directory mode 0750 against the directory mask 001) x attribute vectors {exactly one file violating one active rule, random vectors, vectors violating only inactive rules}; files are lchown'ed to uid/gid %d resp. replaced by symbolic links; each scenario = setter calls in varying order with overwritten calls mixed in, read, econf_reset_security_settings, read again. Trace_Layers folds the RECORDED setter calls into the settings in force (Security!ApplySetters: every setter changes its own setting only, the last call counts), computes the violations from the logged attributes and accepts only the code of the first failing file, no object, no callback for the refused file, full content after reset. Plus one scenario across threads: rules set by the main thread gate a worker's reads and vice versa; and required ids of 2^31-1, 2^31, 3 000 000 000 and 2^32-2. non-trivial = >= 2 consulted files of which exactly one violates an active rule." % (n, p_layers.FOREIGN),
            "samples": events[:3], "exhaustive": False, "trusted_base": ["TLC 1.8.0", "gcc ASan/UBSan", "drv.c (runs as root)"]}
     core.write_evidence(pid, tier, seed, "model_checking", cov,
                         ["checks run as root; foreign = uid/gid 54321", "econf_requirePermissions is beyond the text of the property; modelled with one strict pair of masks (file 004 / directory 001 against modes 0640 / 0750)", "process-wide flags are reset after every scenario"],
@@ -138,6 +139,31 @@ def settings_across_threads(exe, verdict):
                           "restrictions set by one thread and met by another: worker under the main thread's owner / no-link rules read [foreign file, own file, link, tree with a foreign drop-in] -> %s; main thread under the worker's group rule, then after reset -> %s; expected %s" % (got[:4], got[4:], want))
         return 0
     return 1
+
+
+def big_ids(exe, verdict):
+    """required owner / group ids in the upper half of the 32-bit range (3 000 000 000, 4 294 967 294) are ids like any other: a
+    file owned by somebody else is refused, a file owned by that id is read"""
+    R = ROOT + "/bigid"
+    ok = 0
+    for which, rid in (("owner", 3000000000), ("group", 4294967294), ("owner", 2147483648), ("group", 2147483647)):
+        own = "%d 0" % rid if which == "owner" else "0 %d" % rid
+        sc = ["rm %s" % hx(R), "file %s %s" % (hx(R + "/root.conf"), hx("a=1\n")), "file %s %s" % (hx(R + "/theirs.conf"), hx("a=2\n")), "chown %s %s" % (hx(R + "/theirs.conf"), own),
+              "file %s %s" % (hx(R + "/t/etc/cfg.conf"), hx("m=1\n")), "file %s %s" % (hx(R + "/t/etc/cfg.conf.d/d.conf"), hx("d=1\n")), "chown %s %s" % (hx(R + "/t/etc/cfg.conf"), own),
+              "require%s %d" % (which, rid),
+              "readfile 1 %s x3d x23" % hx(R + "/root.conf"), "free 1", "readfile 2 %s x3d x23" % hx(R + "/theirs.conf"), "free 2",
+              "readdirs 3 %s %s %s %s x3d x23" % (hx(R + "/t/usr"), hx(R + "/t/etc"), hx("cfg"), hx("conf")), "free 3", "resetsec",
+              "readfile 4 %s x3d x23" % hx(R + "/root.conf"), "free 4"]
+        out = core.run_cases(exe, [("bigid", sc)], jobs=1)["bigid"]
+        code = "ECONF_WRONG_OWNER" if which == "owner" else "ECONF_WRONG_GROUP"
+        want = [code, "ECONF_SUCCESS", code, "ECONF_SUCCESS"]
+        got = None if out["crash"] else [e["rc"] for e in out["ev"] if e["op"].startswith("read")]
+        if got != want:
+            verdict.violation("C16:big-id:%s" % which, {"kind": "script", "script": sc, "got": got, "want": want, "crash": out["crash"]},
+                              "required %s id %d: reads of [a root-owned file, a file of that %s, a tree whose drop-in is root-owned, the root-owned file after reset] -> %s, expected %s" % (which, rid, which, got, want))
+        else:
+            ok += 1
+    return ok
 
 
 def replay(pid, path):
